@@ -51,6 +51,10 @@ ENGINE_MODULES = {
 }
 
 
+# engines that have been delivered, reviewed and integrated (others are skipped even if present)
+READY = {"eng_brand", "eng_collect", "eng_layout"}
+
+
 def _merge(a, b):
     out = dict(a)
     for k, v in b.items():
@@ -73,6 +77,8 @@ def _make(prop, mods):
     def engine(tier, seed):
         res = {"problems": []}
         for name in mods:
+            if name not in READY:
+                continue
             try:
                 mod = importlib.import_module(name)
             except ImportError:
@@ -89,5 +95,5 @@ def _make(prop, mods):
 
 ENGINES = {}
 for _p, _mods in ENGINE_MODULES.items():
-    if any(os.path.exists(os.path.join(os.path.dirname(os.path.abspath(__file__)), m + ".py")) for m in _mods):
+    if any(m in READY and os.path.exists(os.path.join(os.path.dirname(os.path.abspath(__file__)), m + ".py")) for m in _mods):
         ENGINES[_p] = _make(_p, _mods)
